@@ -19,6 +19,26 @@ CHECKS = {
             'Trusts TLC, the Python logging module, and that rendering entries to -maxwarn strings is faithful. '
             'Inputs that the statement leaves unspecified (type both named and limited) are not generated.',
             'DESIGN.md section 5 / C08'),
+    'C12': ('model_checking',
+            'TLA+ history spec MoleculeEdit (heap of molecules, one action per editing call; NoDangling/UniqueKeys invariants, '
+            'MergeConserves/Frame action properties; TLC exhaustive + simulation) + replay of every state-graph transition and '
+            'every simulated behaviour on real Molecule objects + TLC validation of recorded random editing histories',
+            'All interleavings of the editing calls below the bound are enumerated by TLC; each transition is executed on the '
+            'real class along the BFS tree (internal caches follow the history) and compared cell by cell; longer random '
+            'histories recorded from the real class are validated event by event against the same effect operators.',
+            'Trusts TLC and the projection (keys in insertion order, resid, charge_group, atomname, edges, per-type interaction '
+            'lists with version). Not generated: self-merge, non-integer keys, different force fields/nrexcl, nodes created '
+            'implicitly by add_edge.',
+            'DESIGN.md section 5 / C12'),
+    'C17': ('model_checking',
+            'TLA+ specs AnnotateSeq (reconciliation + cursor walk, operational = declarative) and HelixRewrite (ordered pattern '
+            'rewriting = maximal-run rule) checked exhaustively by TLC; every model state replayed into the real '
+            'AnnotateResidues.run_system / convert_dssp_to_martini; TLC judges recorded runs on larger random inputs',
+            'Exhaustive over all systems of <=3-4 molecules x selection flags x residue counts x sequence lengths, and over all '
+            'DSSP strings up to the bound; the real functions must return exactly TLC\'s expectation for each.',
+            'Trusts TLC; residue order is the order of lowest node key per residue (as partition_graph documents); DSSP '
+            'executable path not exercised.',
+            'DESIGN.md section 5 / C17'),
 }
 
 PENDING = {}
